@@ -256,6 +256,11 @@ func runC08(c *fw.Ctx) {
 	// of it are merged; the node must end up with what a follower fed with the same updates has
 	for r := 0; r < c.Pick(2, 10); r++ {
 		c20HotTopic(c, 800+r)
+		// eight updates of one session / subscription / retained topic merged by eight goroutines at once:
+		// the newest must survive
+		for k := 0; k < 8; k++ {
+			c20MergeRace(c, 800+10*r+k)
+		}
 	}
 }
 
@@ -312,7 +317,7 @@ func newCrdtWorld(rg *rand.Rand, offsets []int64) *crdtWorld {
 }
 
 var crdtFilters = []string{"mp/a", "mp/a/b", "mp/a/+", "mp/#", "mp/b"}
-var crdtTopics = []string{"mp/t", "mp/t/u", "mp/u"}
+var crdtTopics = []string{"mp/t", "mp/t/u", "mp/u", "mp/t/"}
 
 // collect moves node i's freshly queued broadcasts to the pending lists.
 func (w *crdtWorld) collect(i int) [][]byte {
@@ -339,6 +344,9 @@ func (w *crdtWorld) step(bulk bool) {
 		w.sessSeq++
 		id := fmt.Sprintf("S%d", w.sessSeq)
 		client := fmt.Sprintf("c%d", w.rg.Intn(3))
+		if w.rg.Intn(5) == 0 {
+			client = "" // MQTT allows a zero-length client identifier with a clean session
+		}
 		var lwt *packet.Publish
 		if w.rg.Intn(3) == 0 {
 			lwt = &packet.Publish{Header: &packet.Header{}, Topic: []byte("mp/will"), Payload: []byte(id)}
